@@ -303,6 +303,7 @@ inductive Viol
   | undefinedConst (name : Name)
   | headerParseNoFromStr (item target : Name)
   | ctorBoxMismatch (item variant : Name)
+  | fnShadowsImport (file name : Name)
 deriving DecidableEq, Repr
 
 def typeKind (k : Name) : Bool := k == "struct".toList || k == "enum".toList || k == "alias".toList
@@ -405,6 +406,8 @@ def ctorBoxViols (it : Item) : List Viol :=
 
 def shapeViols (m : Mod) : List Viol :=
   (m.items.flatMap fun it =>
+    -- a free function named like an identifier its own file imports (`fn get` next to `use axum::routing::{get, ..}`)
+    (if it.kind == "fn".toList && ((m.imports.filter (·.1 == it.file)).flatMap (·.2)).contains it.name then [Viol.fnShadowsImport it.file it.name] else []) ++
     (if it.kind == "ctor".toList && hasDup it.params then [Viol.dupParam it.name] else []) ++
     (if it.kind == "struct".toList && hasDup (it.fields.map (·.name)) then [Viol.dupMember it.name] else []) ++
     (if it.kind == "enum".toList && hasDup it.variants then [Viol.dupMember it.name] else []) ++
@@ -431,6 +434,8 @@ def WF (m : Mod) : Bool := (violations m).isEmpty
 
 /-! ### characterised defect classes -/
 
+def routingFns : List Name := ["get", "post", "put", "delete", "patch", "head", "options", "trace"].map String.toList
+
 /-- the class a violation falls in, if it has one of the characterised SHAPES (everything else is unlisted) -/
 def classOf (m : Mod) : Viol → Option String
   | .undefinedType n => if m.schemas.contains n then some "KnownSchemaNotEmitted" else none
@@ -453,6 +458,8 @@ def classOf (m : Mod) : Viol → Option String
   | .serverOptBody _ => some "KnownServerOptionalBody"
   | .serverDurationHeader _ => some "KnownServerDurationHeader"
   | .aliasCycle _ => some "KnownAliasCycle"
+  -- F01-17: common-affix trimming of the operation ids leaves a server handler called like an HTTP verb
+  | .fnShadowsImport f n => if f == "server".toList && routingFns.contains n then some "KnownHandlerShadowsRouting" else none
   | _ => none
 
 structure RErr where
@@ -503,6 +510,8 @@ def explains : Viol → RErr → Bool
   | .undefinedConst n, e => codeIn e.code ["E0425"] && e.name == n
   | .headerParseNoFromStr it tgt, e => e.ikind == "impl".toList && e.iname == it && e.name == tgt && codeIn e.code ["E0277"]
   | .ctorBoxMismatch it _, e => e.ikind == "impl".toList && e.iname == it && codeIn e.code ["E0308"]
+  -- the name is defined twice in the value namespace (E0255); every use of it in `router` is then ambiguous / ill-typed
+  | .fnShadowsImport f n, e => e.file == f && (codeIn e.code ["E0255"] || (e.iname == "router".toList) || e.iname == n || e.name == n)
 
 structure Verdict where
   ok : Bool
